@@ -41,7 +41,9 @@ pub const T0_SECS: u64 = 500;
 pub struct NetState {
     pub inbox: HashMap<SocketAddr, VecDeque<(Vec<u8>, SocketAddr)>>,
     pub outbox: Vec<(SocketAddr, SocketAddr, Vec<u8>)>,
-    pub send_err: HashMap<SocketAddr, io::ErrorKind>,
+    /// armed send failures, keyed by (socket, destination): the server transport walks its clients in hash order, so
+    /// "the next send of this socket" would not be a deterministic choice
+    pub send_err: HashMap<(SocketAddr, SocketAddr), io::ErrorKind>,
     pub recv_err: HashMap<SocketAddr, io::ErrorKind>,
     pub recv_err_fired: u64,
     pub send_err_fired: u64,
@@ -52,7 +54,7 @@ pub struct SimNet(pub RefCell<NetState>);
 impl VerifNet for SimNet {
     fn send_to(&self, from: SocketAddr, buf: &[u8], to: SocketAddr) -> io::Result<usize> {
         let mut st = self.0.borrow_mut();
-        if let Some(kind) = st.send_err.remove(&from) {
+        if let Some(kind) = st.send_err.remove(&(from, to)) {
             st.send_err_fired += 1;
             return Err(io::Error::new(kind, "simulated send_to failure"));
         }
